@@ -261,6 +261,29 @@ func (c *Ctx) checkPromAllocator(rule string, fn *ssa.Function, fOnErr *types.Va
 			}
 		}
 	}
+	// series selection: <vec>.With(tags) with the allocator's own tags parameter
+	var tagsParam *ssa.Parameter
+	for _, p := range fn.Params {
+		if _, isMap := p.Type().Underlying().(*types.Map); isMap {
+			tagsParam = p
+		}
+	}
+	nWith := 0
+	instrsOf(fn, func(in ssa.Instruction) {
+		call, ok := in.(*ssa.Call)
+		if !ok {
+			return
+		}
+		if f := staticCallee(call); f != nil && f.Name() == "With" && f.Signature.Recv() != nil && len(call.Call.Args) == 2 {
+			nWith++
+			if tagsParam == nil || canon(call.Call.Args[1]) != ssa.Value(tagsParam) {
+				fail(in.Pos(), ":series", "the series is not selected with the allocator's own tags (vec.With(tags)): metrics with the same name and tag keys but different tag values share one series", c.describe(in))
+			}
+		}
+	})
+	if nWith == 0 {
+		fail(fn.Pos(), ":series", "no series is selected from the vector (vec.With(tags))")
+	}
 	// no nil handle is returned
 	for _, r := range returnsOf(fn) {
 		if !c.neverNilResult(r) {
@@ -633,7 +656,7 @@ func (c *Ctx) checkPromObservations(rule string) {
 				"a time.Duration is converted to float64 without dividing by float64(time.Second): Prometheus receives nanoseconds where seconds are expected", c.describe(cv))
 		})
 	}
-	c.floor(rule+"-seconds", n, 3)
+	c.floor(rule+"-seconds", n, 2)
 }
 
 func (c *Ctx) checkPromConfig(rule string) {
